@@ -4,6 +4,8 @@ pub mod co;
 pub mod join;
 pub mod once;
 pub mod rt;
+#[cfg(feature = "pre")]
+pub mod pre;
 pub mod sleepers;
 pub mod local;
 pub mod nio;
@@ -38,6 +40,8 @@ pub static ALL: &[Comp] = &[
     Comp { name: "join", gen: join::gen, exec: join::exec, isolate_ms: 15000 },
     Comp { name: "once", gen: once::gen, exec: once::exec, isolate_ms: 15000 },
     Comp { name: "rt", gen: rt::gen, exec: rt::exec, isolate_ms: 15000 },
+    #[cfg(feature = "pre")]
+    Comp { name: "pre", gen: pre::gen, exec: pre::exec, isolate_ms: 20000 },
     Comp { name: "sleepers", gen: sleepers::gen, exec: sleepers::exec, isolate_ms: 15000 },
     Comp { name: "pq", gen: queue::gen_pq, exec: queue::exec_pq, isolate_ms: 500 },
 ];
